@@ -198,6 +198,8 @@ pub struct GenCfg {
     pub inter_lists: bool,
     /// intersection members with an index signature
     pub inter_indexed: bool,
+    /// now and then a definition is named with `$` or a non-ASCII letter (both are TypeScript identifiers)
+    pub odd_names: bool,
 }
 
 impl Default for GenCfg {
@@ -218,6 +220,7 @@ impl Default for GenCfg {
             inter_nullable: true,
             inter_lists: true,
             inter_indexed: true,
+            odd_names: true,
         }
     }
 }
@@ -231,6 +234,7 @@ pub const NUM_LITS: [&str; 5] = ["0", "1", "2", "-1", "1.5"];
 /// (the emitted validator is a regex built from the chunks)
 pub const TPL_LITS: [&str; 17] = ["a", "-", "x.", "(b)", "a|b", "$", "[k]", "a+", "^", "\\d", "{2}", "?", "*", "/", "`", "${", "a`${b}"];
 pub const DEF_NAMES: [&str; 4] = ["Alpha", "Beta", "Gamma", "Delta"];
+pub const ODD_DEF_NAMES: [&str; 4] = ["Alpha$", "Bêta", "$Gamma", "Delta$x"];
 
 struct G<'c> {
     cfg: &'c GenCfg,
@@ -630,7 +634,8 @@ pub fn gen_env_and_roots(s: &mut Src, cfg: &GenCfg, n_roots: usize) -> (Env, Vec
         };
         // a definition that is *only* a self/forward reference would not be contractive: `ty(.., guarded=false)`
         // never produces one.
-        env.defs.push((DEF_NAMES[i].to_string(), body));
+        let name = if cfg.odd_names && s.chance(1, 12) { ODD_DEF_NAMES[i] } else { DEF_NAMES[i] };
+        env.defs.push((name.to_string(), body));
     }
     let g = G {
         cfg,
